@@ -228,7 +228,7 @@ func VerifC06_BlockingEndpoints(st any) {
 	verifrt.Assert("C06.rpc."+ep.name+".index-not-zero", m != 0)
 	widx := idx + 10
 	vWhileBlocked(s, func() { w.do(widx) })
-	r1, i1, err1 := ep.call(structs.QueryOptions{MinQueryIndex: m, MaxQueryTime: 400 * time.Millisecond})
+	r1, i1, err1 := ep.call(structs.QueryOptions{MinQueryIndex: m, MaxQueryTime: 2 * time.Second})
 	r2, i2, err2 := ep.call(structs.QueryOptions{})
 	verifrt.Assert(tag+".no-error", err1 == nil && err2 == nil)
 	verifrt.Assert("C06.rpc."+ep.name+".blocked-index-not-zero", i1 != 0 && i2 != 0)
